@@ -7,271 +7,271 @@ open ImathVerif
 
 /-- extracted from the C++ template at T = Sym; 8 path(s) -/
 def Frame.computeLocalFrame {α : Type} [Add α] [Sub α] [Mul α] [Div α] [Neg α] [LT α] [LE α] [DecidableLT α] [DecidableLE α] [DecidableEq α] [OfNat α 0] [OfNat α 1] [OfNat α 2] (tmin : α) (tmax : α) (sqrt : α → α) (p : V3 α) (xDir : V3 α) (normal : V3 α) : (M44 α) :=
-  let t1939 := (V3.length tmin tmax sqrt ⟨xDir.x, xDir.y, xDir.z⟩)
-  let t1942 := ((normal.x * xDir.y) - (normal.y * xDir.x))
-  let t1945 := ((normal.z * xDir.x) - (normal.x * xDir.z))
-  let t1948 := ((normal.y * xDir.z) - (normal.z * xDir.y))
-  let t1949 := (V3.length tmin tmax sqrt ⟨t1948, t1945, t1942⟩)
-  let t1952 := ((xDir.x * t1945) - (xDir.y * t1948))
-  let t1955 := ((xDir.z * t1948) - (xDir.x * t1942))
-  let t1958 := ((xDir.y * t1942) - (xDir.z * t1945))
-  let t1959 := (V3.length tmin tmax sqrt ⟨t1958, t1955, t1952⟩)
-  let t1963 := (t1948 / t1949)
-  let t1964 := (t1945 / t1949)
-  let t1965 := (t1942 / t1949)
-  let t1968 := ((xDir.x * t1964) - (xDir.y * t1963))
-  let t1971 := ((xDir.z * t1963) - (xDir.x * t1965))
-  let t1974 := ((xDir.y * t1965) - (xDir.z * t1964))
-  let t1975 := (V3.length tmin tmax sqrt ⟨t1974, t1971, t1968⟩)
-  let t1979 := (xDir.x / t1939)
-  let t1980 := (xDir.y / t1939)
-  let t1981 := (xDir.z / t1939)
-  let t1984 := ((normal.x * t1980) - (normal.y * t1979))
-  let t1987 := ((normal.z * t1979) - (normal.x * t1981))
-  let t1990 := ((normal.y * t1981) - (normal.z * t1980))
-  let t1991 := (V3.length tmin tmax sqrt ⟨t1990, t1987, t1984⟩)
-  let t1994 := ((t1979 * t1987) - (t1980 * t1990))
-  let t1997 := ((t1981 * t1990) - (t1979 * t1984))
-  let t2000 := ((t1980 * t1984) - (t1981 * t1987))
-  let t2001 := (V3.length tmin tmax sqrt ⟨t2000, t1997, t1994⟩)
-  let t2005 := (t1990 / t1991)
-  let t2006 := (t1987 / t1991)
-  let t2007 := (t1984 / t1991)
-  let t2010 := ((t1979 * t2006) - (t1980 * t2005))
-  let t2013 := ((t1981 * t2005) - (t1979 * t2007))
-  let t2016 := ((t1980 * t2007) - (t1981 * t2006))
-  let t2017 := (V3.length tmin tmax sqrt ⟨t2016, t2013, t2010⟩)
-  if t1939 = (0 : α) then
-    if t1949 = (0 : α) then
-      if t1959 = (0 : α) then
-        ⟨xDir.x, xDir.y, xDir.z, (0 : α), t1948, t1945, t1942, (0 : α), t1958, t1955, t1952, (0 : α), p.x, p.y, p.z, (1 : α)⟩
+  let t1977 := (V3.length tmin tmax sqrt ⟨xDir.x, xDir.y, xDir.z⟩)
+  let t1980 := ((normal.x * xDir.y) - (normal.y * xDir.x))
+  let t1983 := ((normal.z * xDir.x) - (normal.x * xDir.z))
+  let t1986 := ((normal.y * xDir.z) - (normal.z * xDir.y))
+  let t1987 := (V3.length tmin tmax sqrt ⟨t1986, t1983, t1980⟩)
+  let t1990 := ((xDir.x * t1983) - (xDir.y * t1986))
+  let t1993 := ((xDir.z * t1986) - (xDir.x * t1980))
+  let t1996 := ((xDir.y * t1980) - (xDir.z * t1983))
+  let t1997 := (V3.length tmin tmax sqrt ⟨t1996, t1993, t1990⟩)
+  let t2001 := (t1986 / t1987)
+  let t2002 := (t1983 / t1987)
+  let t2003 := (t1980 / t1987)
+  let t2006 := ((xDir.x * t2002) - (xDir.y * t2001))
+  let t2009 := ((xDir.z * t2001) - (xDir.x * t2003))
+  let t2012 := ((xDir.y * t2003) - (xDir.z * t2002))
+  let t2013 := (V3.length tmin tmax sqrt ⟨t2012, t2009, t2006⟩)
+  let t2017 := (xDir.x / t1977)
+  let t2018 := (xDir.y / t1977)
+  let t2019 := (xDir.z / t1977)
+  let t2022 := ((normal.x * t2018) - (normal.y * t2017))
+  let t2025 := ((normal.z * t2017) - (normal.x * t2019))
+  let t2028 := ((normal.y * t2019) - (normal.z * t2018))
+  let t2029 := (V3.length tmin tmax sqrt ⟨t2028, t2025, t2022⟩)
+  let t2032 := ((t2017 * t2025) - (t2018 * t2028))
+  let t2035 := ((t2019 * t2028) - (t2017 * t2022))
+  let t2038 := ((t2018 * t2022) - (t2019 * t2025))
+  let t2039 := (V3.length tmin tmax sqrt ⟨t2038, t2035, t2032⟩)
+  let t2043 := (t2028 / t2029)
+  let t2044 := (t2025 / t2029)
+  let t2045 := (t2022 / t2029)
+  let t2048 := ((t2017 * t2044) - (t2018 * t2043))
+  let t2051 := ((t2019 * t2043) - (t2017 * t2045))
+  let t2054 := ((t2018 * t2045) - (t2019 * t2044))
+  let t2055 := (V3.length tmin tmax sqrt ⟨t2054, t2051, t2048⟩)
+  if t1977 = (0 : α) then
+    if t1987 = (0 : α) then
+      if t1997 = (0 : α) then
+        ⟨xDir.x, xDir.y, xDir.z, (0 : α), t1986, t1983, t1980, (0 : α), t1996, t1993, t1990, (0 : α), p.x, p.y, p.z, (1 : α)⟩
       else
-        ⟨xDir.x, xDir.y, xDir.z, (0 : α), t1948, t1945, t1942, (0 : α), (t1958 / t1959), (t1955 / t1959), (t1952 / t1959), (0 : α), p.x, p.y, p.z, (1 : α)⟩
+        ⟨xDir.x, xDir.y, xDir.z, (0 : α), t1986, t1983, t1980, (0 : α), (t1996 / t1997), (t1993 / t1997), (t1990 / t1997), (0 : α), p.x, p.y, p.z, (1 : α)⟩
     else
-      if t1975 = (0 : α) then
-        ⟨xDir.x, xDir.y, xDir.z, (0 : α), t1963, t1964, t1965, (0 : α), t1974, t1971, t1968, (0 : α), p.x, p.y, p.z, (1 : α)⟩
+      if t2013 = (0 : α) then
+        ⟨xDir.x, xDir.y, xDir.z, (0 : α), t2001, t2002, t2003, (0 : α), t2012, t2009, t2006, (0 : α), p.x, p.y, p.z, (1 : α)⟩
       else
-        ⟨xDir.x, xDir.y, xDir.z, (0 : α), t1963, t1964, t1965, (0 : α), (t1974 / t1975), (t1971 / t1975), (t1968 / t1975), (0 : α), p.x, p.y, p.z, (1 : α)⟩
+        ⟨xDir.x, xDir.y, xDir.z, (0 : α), t2001, t2002, t2003, (0 : α), (t2012 / t2013), (t2009 / t2013), (t2006 / t2013), (0 : α), p.x, p.y, p.z, (1 : α)⟩
   else
-    if t1991 = (0 : α) then
-      if t2001 = (0 : α) then
-        ⟨t1979, t1980, t1981, (0 : α), t1990, t1987, t1984, (0 : α), t2000, t1997, t1994, (0 : α), p.x, p.y, p.z, (1 : α)⟩
+    if t2029 = (0 : α) then
+      if t2039 = (0 : α) then
+        ⟨t2017, t2018, t2019, (0 : α), t2028, t2025, t2022, (0 : α), t2038, t2035, t2032, (0 : α), p.x, p.y, p.z, (1 : α)⟩
       else
-        ⟨t1979, t1980, t1981, (0 : α), t1990, t1987, t1984, (0 : α), (t2000 / t2001), (t1997 / t2001), (t1994 / t2001), (0 : α), p.x, p.y, p.z, (1 : α)⟩
+        ⟨t2017, t2018, t2019, (0 : α), t2028, t2025, t2022, (0 : α), (t2038 / t2039), (t2035 / t2039), (t2032 / t2039), (0 : α), p.x, p.y, p.z, (1 : α)⟩
     else
-      if t2017 = (0 : α) then
-        ⟨t1979, t1980, t1981, (0 : α), t2005, t2006, t2007, (0 : α), t2016, t2013, t2010, (0 : α), p.x, p.y, p.z, (1 : α)⟩
+      if t2055 = (0 : α) then
+        ⟨t2017, t2018, t2019, (0 : α), t2043, t2044, t2045, (0 : α), t2054, t2051, t2048, (0 : α), p.x, p.y, p.z, (1 : α)⟩
       else
-        ⟨t1979, t1980, t1981, (0 : α), t2005, t2006, t2007, (0 : α), (t2016 / t2017), (t2013 / t2017), (t2010 / t2017), (0 : α), p.x, p.y, p.z, (1 : α)⟩
+        ⟨t2017, t2018, t2019, (0 : α), t2043, t2044, t2045, (0 : α), (t2054 / t2055), (t2051 / t2055), (t2048 / t2055), (0 : α), p.x, p.y, p.z, (1 : α)⟩
 
 /-- extracted from the C++ template at T = Sym; 1 path(s) -/
 def Frame.addOffset {α : Type} [Add α] [Mul α] [Div α] [Neg α] [OfNat α 0] [OfNat α 1] [OfNat α 5030569068109113] [OfNat α 288230376151711744] (sin : α → α) (cos : α → α) (inMat : M44 α) (tOffset : V3 α) (rOffset : V3 α) (sOffset : V3 α) (ref : M44 α) : (M44 α) :=
-  let t2063 := (rOffset.x * ((5030569068109113 : α) / (288230376151711744 : α)))
-  let t2064 := (rOffset.y * ((5030569068109113 : α) / (288230376151711744 : α)))
-  let t2065 := (rOffset.z * ((5030569068109113 : α) / (288230376151711744 : α)))
-  let t2066 := (cos t2065)
-  let t2067 := (cos t2064)
-  let t2068 := (cos t2063)
-  let t2069 := (sin t2065)
-  let t2070 := (sin t2064)
-  let t2071 := (sin t2063)
-  let t2072 := (t2066 * t2067)
-  let t2073 := (t2069 * t2067)
-  let t2074 := (-t2070)
-  let t2075 := (t2066 * t2070)
-  let t2077 := (-t2069)
-  let t2079 := ((t2077 * t2068) + (t2075 * t2071))
-  let t2080 := (t2069 * t2070)
-  let t2083 := ((t2066 * t2068) + (t2080 * t2071))
-  let t2084 := (t2067 * t2071)
-  let t2086 := (-t2071)
-  let t2088 := ((t2077 * t2086) + (t2075 * t2068))
-  let t2091 := ((t2066 * t2086) + (t2080 * t2068))
-  let t2092 := (t2067 * t2068)
-  let t2093 := ((0 : α) * t2074)
-  let t2094 := ((0 : α) * t2073)
-  let t2097 := ((((1 : α) * t2072) + t2094) + t2093)
-  let t2099 := ((0 : α) * t2072)
-  let t2101 := ((t2099 + ((1 : α) * t2073)) + t2093)
-  let t2103 := (t2099 + t2094)
-  let t2104 := (t2103 + ((1 : α) * t2074))
-  let t2105 := (t2103 + t2093)
-  let t2106 := ((0 : α) * t2084)
-  let t2107 := ((0 : α) * t2083)
-  let t2110 := ((((1 : α) * t2079) + t2107) + t2106)
-  let t2112 := ((0 : α) * t2079)
-  let t2114 := ((t2112 + ((1 : α) * t2083)) + t2106)
-  let t2116 := (t2112 + t2107)
-  let t2117 := (t2116 + ((1 : α) * t2084))
-  let t2118 := (t2116 + t2106)
-  let t2119 := ((0 : α) * t2092)
-  let t2120 := ((0 : α) * t2091)
-  let t2123 := ((((1 : α) * t2088) + t2120) + t2119)
-  let t2125 := ((0 : α) * t2088)
-  let t2127 := ((t2125 + ((1 : α) * t2091)) + t2119)
-  let t2129 := (t2125 + t2120)
-  let t2130 := (t2129 + ((1 : α) * t2092))
-  let t2131 := (t2129 + t2119)
-  let t2132 := ((1 : α) * sOffset.x)
-  let t2133 := ((0 : α) * sOffset.x)
-  let t2134 := ((0 : α) * sOffset.y)
-  let t2135 := ((1 : α) * sOffset.y)
-  let t2136 := ((0 : α) * sOffset.z)
-  let t2137 := ((1 : α) * sOffset.z)
-  let t2144 := ((((t2132 * t2097) + (t2133 * t2110)) + (t2133 * t2123)) + (t2133 * tOffset.x))
-  let t2151 := ((((t2132 * t2101) + (t2133 * t2114)) + (t2133 * t2127)) + (t2133 * tOffset.y))
-  let t2158 := ((((t2132 * t2104) + (t2133 * t2117)) + (t2133 * t2130)) + (t2133 * tOffset.z))
-  let t2165 := ((((t2132 * t2105) + (t2133 * t2118)) + (t2133 * t2131)) + (t2133 * (1 : α)))
-  let t2172 := ((((t2134 * t2097) + (t2135 * t2110)) + (t2134 * t2123)) + (t2134 * tOffset.x))
-  let t2179 := ((((t2134 * t2101) + (t2135 * t2114)) + (t2134 * t2127)) + (t2134 * tOffset.y))
-  let t2186 := ((((t2134 * t2104) + (t2135 * t2117)) + (t2134 * t2130)) + (t2134 * tOffset.z))
-  let t2193 := ((((t2134 * t2105) + (t2135 * t2118)) + (t2134 * t2131)) + (t2134 * (1 : α)))
-  let t2200 := ((((t2136 * t2097) + (t2136 * t2110)) + (t2137 * t2123)) + (t2136 * tOffset.x))
-  let t2207 := ((((t2136 * t2101) + (t2136 * t2114)) + (t2137 * t2127)) + (t2136 * tOffset.y))
-  let t2214 := ((((t2136 * t2104) + (t2136 * t2117)) + (t2137 * t2130)) + (t2136 * tOffset.z))
-  let t2221 := ((((t2136 * t2105) + (t2136 * t2118)) + (t2137 * t2131)) + (t2136 * (1 : α)))
-  let t2228 := (((((0 : α) * t2097) + ((0 : α) * t2110)) + ((0 : α) * t2123)) + ((1 : α) * tOffset.x))
-  let t2235 := (((((0 : α) * t2101) + ((0 : α) * t2114)) + ((0 : α) * t2127)) + ((1 : α) * tOffset.y))
-  let t2242 := (((((0 : α) * t2104) + ((0 : α) * t2117)) + ((0 : α) * t2130)) + ((1 : α) * tOffset.z))
-  let t2248 := (((((0 : α) * t2105) + ((0 : α) * t2118)) + ((0 : α) * t2131)) + ((1 : α) * (1 : α)))
-  let t2255 := ((((t2144 * inMat.x00) + (t2151 * inMat.x10)) + (t2158 * inMat.x20)) + (t2165 * inMat.x30))
-  let t2262 := ((((t2144 * inMat.x01) + (t2151 * inMat.x11)) + (t2158 * inMat.x21)) + (t2165 * inMat.x31))
-  let t2269 := ((((t2144 * inMat.x02) + (t2151 * inMat.x12)) + (t2158 * inMat.x22)) + (t2165 * inMat.x32))
-  let t2276 := ((((t2144 * inMat.x03) + (t2151 * inMat.x13)) + (t2158 * inMat.x23)) + (t2165 * inMat.x33))
-  let t2283 := ((((t2172 * inMat.x00) + (t2179 * inMat.x10)) + (t2186 * inMat.x20)) + (t2193 * inMat.x30))
-  let t2290 := ((((t2172 * inMat.x01) + (t2179 * inMat.x11)) + (t2186 * inMat.x21)) + (t2193 * inMat.x31))
-  let t2297 := ((((t2172 * inMat.x02) + (t2179 * inMat.x12)) + (t2186 * inMat.x22)) + (t2193 * inMat.x32))
-  let t2304 := ((((t2172 * inMat.x03) + (t2179 * inMat.x13)) + (t2186 * inMat.x23)) + (t2193 * inMat.x33))
-  let t2311 := ((((t2200 * inMat.x00) + (t2207 * inMat.x10)) + (t2214 * inMat.x20)) + (t2221 * inMat.x30))
-  let t2318 := ((((t2200 * inMat.x01) + (t2207 * inMat.x11)) + (t2214 * inMat.x21)) + (t2221 * inMat.x31))
-  let t2325 := ((((t2200 * inMat.x02) + (t2207 * inMat.x12)) + (t2214 * inMat.x22)) + (t2221 * inMat.x32))
-  let t2332 := ((((t2200 * inMat.x03) + (t2207 * inMat.x13)) + (t2214 * inMat.x23)) + (t2221 * inMat.x33))
-  let t2339 := ((((t2228 * inMat.x00) + (t2235 * inMat.x10)) + (t2242 * inMat.x20)) + (t2248 * inMat.x30))
-  let t2346 := ((((t2228 * inMat.x01) + (t2235 * inMat.x11)) + (t2242 * inMat.x21)) + (t2248 * inMat.x31))
-  let t2353 := ((((t2228 * inMat.x02) + (t2235 * inMat.x12)) + (t2242 * inMat.x22)) + (t2248 * inMat.x32))
-  let t2360 := ((((t2228 * inMat.x03) + (t2235 * inMat.x13)) + (t2242 * inMat.x23)) + (t2248 * inMat.x33))
-  ⟨((((t2255 * ref.x00) + (t2262 * ref.x10)) + (t2269 * ref.x20)) + (t2276 * ref.x30)), ((((t2255 * ref.x01) + (t2262 * ref.x11)) + (t2269 * ref.x21)) + (t2276 * ref.x31)), ((((t2255 * ref.x02) + (t2262 * ref.x12)) + (t2269 * ref.x22)) + (t2276 * ref.x32)), ((((t2255 * ref.x03) + (t2262 * ref.x13)) + (t2269 * ref.x23)) + (t2276 * ref.x33)), ((((t2283 * ref.x00) + (t2290 * ref.x10)) + (t2297 * ref.x20)) + (t2304 * ref.x30)), ((((t2283 * ref.x01) + (t2290 * ref.x11)) + (t2297 * ref.x21)) + (t2304 * ref.x31)), ((((t2283 * ref.x02) + (t2290 * ref.x12)) + (t2297 * ref.x22)) + (t2304 * ref.x32)), ((((t2283 * ref.x03) + (t2290 * ref.x13)) + (t2297 * ref.x23)) + (t2304 * ref.x33)), ((((t2311 * ref.x00) + (t2318 * ref.x10)) + (t2325 * ref.x20)) + (t2332 * ref.x30)), ((((t2311 * ref.x01) + (t2318 * ref.x11)) + (t2325 * ref.x21)) + (t2332 * ref.x31)), ((((t2311 * ref.x02) + (t2318 * ref.x12)) + (t2325 * ref.x22)) + (t2332 * ref.x32)), ((((t2311 * ref.x03) + (t2318 * ref.x13)) + (t2325 * ref.x23)) + (t2332 * ref.x33)), ((((t2339 * ref.x00) + (t2346 * ref.x10)) + (t2353 * ref.x20)) + (t2360 * ref.x30)), ((((t2339 * ref.x01) + (t2346 * ref.x11)) + (t2353 * ref.x21)) + (t2360 * ref.x31)), ((((t2339 * ref.x02) + (t2346 * ref.x12)) + (t2353 * ref.x22)) + (t2360 * ref.x32)), ((((t2339 * ref.x03) + (t2346 * ref.x13)) + (t2353 * ref.x23)) + (t2360 * ref.x33))⟩
+  let t2101 := (rOffset.x * ((5030569068109113 : α) / (288230376151711744 : α)))
+  let t2102 := (rOffset.y * ((5030569068109113 : α) / (288230376151711744 : α)))
+  let t2103 := (rOffset.z * ((5030569068109113 : α) / (288230376151711744 : α)))
+  let t2104 := (cos t2103)
+  let t2105 := (cos t2102)
+  let t2106 := (cos t2101)
+  let t2107 := (sin t2103)
+  let t2108 := (sin t2102)
+  let t2109 := (sin t2101)
+  let t2110 := (t2104 * t2105)
+  let t2111 := (t2107 * t2105)
+  let t2112 := (-t2108)
+  let t2113 := (t2104 * t2108)
+  let t2115 := (-t2107)
+  let t2117 := ((t2115 * t2106) + (t2113 * t2109))
+  let t2118 := (t2107 * t2108)
+  let t2121 := ((t2104 * t2106) + (t2118 * t2109))
+  let t2122 := (t2105 * t2109)
+  let t2124 := (-t2109)
+  let t2126 := ((t2115 * t2124) + (t2113 * t2106))
+  let t2129 := ((t2104 * t2124) + (t2118 * t2106))
+  let t2130 := (t2105 * t2106)
+  let t2131 := ((0 : α) * t2112)
+  let t2132 := ((0 : α) * t2111)
+  let t2135 := ((((1 : α) * t2110) + t2132) + t2131)
+  let t2137 := ((0 : α) * t2110)
+  let t2139 := ((t2137 + ((1 : α) * t2111)) + t2131)
+  let t2141 := (t2137 + t2132)
+  let t2142 := (t2141 + ((1 : α) * t2112))
+  let t2143 := (t2141 + t2131)
+  let t2144 := ((0 : α) * t2122)
+  let t2145 := ((0 : α) * t2121)
+  let t2148 := ((((1 : α) * t2117) + t2145) + t2144)
+  let t2150 := ((0 : α) * t2117)
+  let t2152 := ((t2150 + ((1 : α) * t2121)) + t2144)
+  let t2154 := (t2150 + t2145)
+  let t2155 := (t2154 + ((1 : α) * t2122))
+  let t2156 := (t2154 + t2144)
+  let t2157 := ((0 : α) * t2130)
+  let t2158 := ((0 : α) * t2129)
+  let t2161 := ((((1 : α) * t2126) + t2158) + t2157)
+  let t2163 := ((0 : α) * t2126)
+  let t2165 := ((t2163 + ((1 : α) * t2129)) + t2157)
+  let t2167 := (t2163 + t2158)
+  let t2168 := (t2167 + ((1 : α) * t2130))
+  let t2169 := (t2167 + t2157)
+  let t2170 := ((1 : α) * sOffset.x)
+  let t2171 := ((0 : α) * sOffset.x)
+  let t2172 := ((0 : α) * sOffset.y)
+  let t2173 := ((1 : α) * sOffset.y)
+  let t2174 := ((0 : α) * sOffset.z)
+  let t2175 := ((1 : α) * sOffset.z)
+  let t2182 := ((((t2170 * t2135) + (t2171 * t2148)) + (t2171 * t2161)) + (t2171 * tOffset.x))
+  let t2189 := ((((t2170 * t2139) + (t2171 * t2152)) + (t2171 * t2165)) + (t2171 * tOffset.y))
+  let t2196 := ((((t2170 * t2142) + (t2171 * t2155)) + (t2171 * t2168)) + (t2171 * tOffset.z))
+  let t2203 := ((((t2170 * t2143) + (t2171 * t2156)) + (t2171 * t2169)) + (t2171 * (1 : α)))
+  let t2210 := ((((t2172 * t2135) + (t2173 * t2148)) + (t2172 * t2161)) + (t2172 * tOffset.x))
+  let t2217 := ((((t2172 * t2139) + (t2173 * t2152)) + (t2172 * t2165)) + (t2172 * tOffset.y))
+  let t2224 := ((((t2172 * t2142) + (t2173 * t2155)) + (t2172 * t2168)) + (t2172 * tOffset.z))
+  let t2231 := ((((t2172 * t2143) + (t2173 * t2156)) + (t2172 * t2169)) + (t2172 * (1 : α)))
+  let t2238 := ((((t2174 * t2135) + (t2174 * t2148)) + (t2175 * t2161)) + (t2174 * tOffset.x))
+  let t2245 := ((((t2174 * t2139) + (t2174 * t2152)) + (t2175 * t2165)) + (t2174 * tOffset.y))
+  let t2252 := ((((t2174 * t2142) + (t2174 * t2155)) + (t2175 * t2168)) + (t2174 * tOffset.z))
+  let t2259 := ((((t2174 * t2143) + (t2174 * t2156)) + (t2175 * t2169)) + (t2174 * (1 : α)))
+  let t2266 := (((((0 : α) * t2135) + ((0 : α) * t2148)) + ((0 : α) * t2161)) + ((1 : α) * tOffset.x))
+  let t2273 := (((((0 : α) * t2139) + ((0 : α) * t2152)) + ((0 : α) * t2165)) + ((1 : α) * tOffset.y))
+  let t2280 := (((((0 : α) * t2142) + ((0 : α) * t2155)) + ((0 : α) * t2168)) + ((1 : α) * tOffset.z))
+  let t2287 := (((((0 : α) * t2143) + ((0 : α) * t2156)) + ((0 : α) * t2169)) + ((1 : α) * (1 : α)))
+  let t2294 := ((((t2182 * inMat.x00) + (t2189 * inMat.x10)) + (t2196 * inMat.x20)) + (t2203 * inMat.x30))
+  let t2301 := ((((t2182 * inMat.x01) + (t2189 * inMat.x11)) + (t2196 * inMat.x21)) + (t2203 * inMat.x31))
+  let t2308 := ((((t2182 * inMat.x02) + (t2189 * inMat.x12)) + (t2196 * inMat.x22)) + (t2203 * inMat.x32))
+  let t2315 := ((((t2182 * inMat.x03) + (t2189 * inMat.x13)) + (t2196 * inMat.x23)) + (t2203 * inMat.x33))
+  let t2322 := ((((t2210 * inMat.x00) + (t2217 * inMat.x10)) + (t2224 * inMat.x20)) + (t2231 * inMat.x30))
+  let t2329 := ((((t2210 * inMat.x01) + (t2217 * inMat.x11)) + (t2224 * inMat.x21)) + (t2231 * inMat.x31))
+  let t2336 := ((((t2210 * inMat.x02) + (t2217 * inMat.x12)) + (t2224 * inMat.x22)) + (t2231 * inMat.x32))
+  let t2343 := ((((t2210 * inMat.x03) + (t2217 * inMat.x13)) + (t2224 * inMat.x23)) + (t2231 * inMat.x33))
+  let t2350 := ((((t2238 * inMat.x00) + (t2245 * inMat.x10)) + (t2252 * inMat.x20)) + (t2259 * inMat.x30))
+  let t2357 := ((((t2238 * inMat.x01) + (t2245 * inMat.x11)) + (t2252 * inMat.x21)) + (t2259 * inMat.x31))
+  let t2364 := ((((t2238 * inMat.x02) + (t2245 * inMat.x12)) + (t2252 * inMat.x22)) + (t2259 * inMat.x32))
+  let t2371 := ((((t2238 * inMat.x03) + (t2245 * inMat.x13)) + (t2252 * inMat.x23)) + (t2259 * inMat.x33))
+  let t2378 := ((((t2266 * inMat.x00) + (t2273 * inMat.x10)) + (t2280 * inMat.x20)) + (t2287 * inMat.x30))
+  let t2385 := ((((t2266 * inMat.x01) + (t2273 * inMat.x11)) + (t2280 * inMat.x21)) + (t2287 * inMat.x31))
+  let t2392 := ((((t2266 * inMat.x02) + (t2273 * inMat.x12)) + (t2280 * inMat.x22)) + (t2287 * inMat.x32))
+  let t2399 := ((((t2266 * inMat.x03) + (t2273 * inMat.x13)) + (t2280 * inMat.x23)) + (t2287 * inMat.x33))
+  ⟨((((t2294 * ref.x00) + (t2301 * ref.x10)) + (t2308 * ref.x20)) + (t2315 * ref.x30)), ((((t2294 * ref.x01) + (t2301 * ref.x11)) + (t2308 * ref.x21)) + (t2315 * ref.x31)), ((((t2294 * ref.x02) + (t2301 * ref.x12)) + (t2308 * ref.x22)) + (t2315 * ref.x32)), ((((t2294 * ref.x03) + (t2301 * ref.x13)) + (t2308 * ref.x23)) + (t2315 * ref.x33)), ((((t2322 * ref.x00) + (t2329 * ref.x10)) + (t2336 * ref.x20)) + (t2343 * ref.x30)), ((((t2322 * ref.x01) + (t2329 * ref.x11)) + (t2336 * ref.x21)) + (t2343 * ref.x31)), ((((t2322 * ref.x02) + (t2329 * ref.x12)) + (t2336 * ref.x22)) + (t2343 * ref.x32)), ((((t2322 * ref.x03) + (t2329 * ref.x13)) + (t2336 * ref.x23)) + (t2343 * ref.x33)), ((((t2350 * ref.x00) + (t2357 * ref.x10)) + (t2364 * ref.x20)) + (t2371 * ref.x30)), ((((t2350 * ref.x01) + (t2357 * ref.x11)) + (t2364 * ref.x21)) + (t2371 * ref.x31)), ((((t2350 * ref.x02) + (t2357 * ref.x12)) + (t2364 * ref.x22)) + (t2371 * ref.x32)), ((((t2350 * ref.x03) + (t2357 * ref.x13)) + (t2364 * ref.x23)) + (t2371 * ref.x33)), ((((t2378 * ref.x00) + (t2385 * ref.x10)) + (t2392 * ref.x20)) + (t2399 * ref.x30)), ((((t2378 * ref.x01) + (t2385 * ref.x11)) + (t2392 * ref.x21)) + (t2399 * ref.x31)), ((((t2378 * ref.x02) + (t2385 * ref.x12)) + (t2392 * ref.x22)) + (t2399 * ref.x32)), ((((t2378 * ref.x03) + (t2385 * ref.x13)) + (t2392 * ref.x23)) + (t2399 * ref.x33))⟩
 
 /-- extracted from the C++ template at T = Sym; 18 path(s) -/
 def Frame.firstFrame {α : Type} [Add α] [Sub α] [Mul α] [Div α] [Neg α] [LT α] [LE α] [DecidableLT α] [DecidableLE α] [DecidableEq α] [OfNat α 0] [OfNat α 1] [OfNat α 2] (tmin : α) (tmax : α) (sqrt : α → α) (pi : V3 α) (pj : V3 α) (pk : V3 α) : Except Exc (M44 α) :=
   let t32 := (pj.z - pi.z)
   let t33 := (pj.y - pi.y)
   let t34 := (pj.x - pi.x)
-  let t2476 := (V3.length tmin tmax sqrt ⟨t34, t33, t32⟩)
-  let t2477 := (t34 / t2476)
-  let t2478 := (t33 / t2476)
-  let t2479 := (t32 / t2476)
-  let t2480 := (pk.z - pi.z)
-  let t2481 := (pk.y - pi.y)
-  let t2482 := (pk.x - pi.x)
-  let t2485 := ((t2477 * t2481) - (t2478 * t2482))
-  let t2488 := ((t2479 * t2482) - (t2477 * t2480))
-  let t2491 := ((t2478 * t2480) - (t2479 * t2481))
-  let t2492 := (V3.length tmin tmax sqrt ⟨t2491, t2488, t2485⟩)
-  let t2493 := (sabs t2478)
-  let t2494 := (sabs t2477)
-  let t2495 := (sabs t2479)
-  let t2496 := (t2478 * (0 : α))
-  let t2497 := (t2477 * (0 : α))
-  let t2498 := (t2497 - t2496)
-  let t2499 := (t2477 * (1 : α))
-  let t2500 := (t2479 * (0 : α))
-  let t2501 := (t2500 - t2499)
-  let t2502 := (t2478 * (1 : α))
-  let t2503 := (t2502 - t2500)
-  let t2504 := (V3.length tmin tmax sqrt ⟨t2503, t2501, t2498⟩)
-  let t2507 := ((t2477 * t2501) - (t2478 * t2503))
-  let t2510 := ((t2479 * t2503) - (t2477 * t2498))
-  let t2513 := ((t2478 * t2498) - (t2479 * t2501))
-  let t2514 := (t2503 / t2504)
-  let t2515 := (t2501 / t2504)
-  let t2516 := (t2498 / t2504)
-  let t2519 := ((t2477 * t2515) - (t2478 * t2514))
-  let t2522 := ((t2479 * t2514) - (t2477 * t2516))
-  let t2525 := ((t2478 * t2516) - (t2479 * t2515))
-  let t2526 := (t2497 - t2502)
-  let t2527 := (t2479 * (1 : α))
-  let t2528 := (t2527 - t2497)
-  let t2529 := (t2496 - t2500)
-  let t2530 := (V3.length tmin tmax sqrt ⟨t2529, t2528, t2526⟩)
-  let t2533 := ((t2477 * t2528) - (t2478 * t2529))
-  let t2536 := ((t2479 * t2529) - (t2477 * t2526))
-  let t2539 := ((t2478 * t2526) - (t2479 * t2528))
-  let t2540 := (t2529 / t2530)
-  let t2541 := (t2528 / t2530)
-  let t2542 := (t2526 / t2530)
-  let t2545 := ((t2477 * t2541) - (t2478 * t2540))
-  let t2548 := ((t2479 * t2540) - (t2477 * t2542))
-  let t2551 := ((t2478 * t2542) - (t2479 * t2541))
-  let t2552 := (t2499 - t2496)
-  let t2553 := (t2500 - t2497)
-  let t2554 := (t2496 - t2527)
-  let t2555 := (V3.length tmin tmax sqrt ⟨t2554, t2553, t2552⟩)
-  let t2558 := ((t2477 * t2553) - (t2478 * t2554))
-  let t2561 := ((t2479 * t2554) - (t2477 * t2552))
-  let t2564 := ((t2478 * t2552) - (t2479 * t2553))
-  let t2565 := (t2554 / t2555)
-  let t2566 := (t2553 / t2555)
-  let t2567 := (t2552 / t2555)
-  let t2570 := ((t2477 * t2566) - (t2478 * t2565))
-  let t2573 := ((t2479 * t2565) - (t2477 * t2567))
-  let t2576 := ((t2478 * t2567) - (t2479 * t2566))
-  let t2577 := (t2491 / t2492)
-  let t2578 := (t2488 / t2492)
-  let t2579 := (t2485 / t2492)
-  let t2580 := (V3.length tmin tmax sqrt ⟨t2577, t2578, t2579⟩)
-  if t2476 = (0 : α) then
+  let t2515 := (V3.length tmin tmax sqrt ⟨t34, t33, t32⟩)
+  let t2516 := (t34 / t2515)
+  let t2517 := (t33 / t2515)
+  let t2518 := (t32 / t2515)
+  let t2519 := (pk.z - pi.z)
+  let t2520 := (pk.y - pi.y)
+  let t2521 := (pk.x - pi.x)
+  let t2524 := ((t2516 * t2520) - (t2517 * t2521))
+  let t2527 := ((t2518 * t2521) - (t2516 * t2519))
+  let t2530 := ((t2517 * t2519) - (t2518 * t2520))
+  let t2531 := (V3.length tmin tmax sqrt ⟨t2530, t2527, t2524⟩)
+  let t2532 := (sabs t2517)
+  let t2533 := (sabs t2516)
+  let t2534 := (sabs t2518)
+  let t2535 := (t2517 * (0 : α))
+  let t2536 := (t2516 * (0 : α))
+  let t2537 := (t2536 - t2535)
+  let t2538 := (t2516 * (1 : α))
+  let t2539 := (t2518 * (0 : α))
+  let t2540 := (t2539 - t2538)
+  let t2541 := (t2517 * (1 : α))
+  let t2542 := (t2541 - t2539)
+  let t2543 := (V3.length tmin tmax sqrt ⟨t2542, t2540, t2537⟩)
+  let t2546 := ((t2516 * t2540) - (t2517 * t2542))
+  let t2549 := ((t2518 * t2542) - (t2516 * t2537))
+  let t2552 := ((t2517 * t2537) - (t2518 * t2540))
+  let t2553 := (t2542 / t2543)
+  let t2554 := (t2540 / t2543)
+  let t2555 := (t2537 / t2543)
+  let t2558 := ((t2516 * t2554) - (t2517 * t2553))
+  let t2561 := ((t2518 * t2553) - (t2516 * t2555))
+  let t2564 := ((t2517 * t2555) - (t2518 * t2554))
+  let t2565 := (t2536 - t2541)
+  let t2566 := (t2518 * (1 : α))
+  let t2567 := (t2566 - t2536)
+  let t2568 := (t2535 - t2539)
+  let t2569 := (V3.length tmin tmax sqrt ⟨t2568, t2567, t2565⟩)
+  let t2572 := ((t2516 * t2567) - (t2517 * t2568))
+  let t2575 := ((t2518 * t2568) - (t2516 * t2565))
+  let t2578 := ((t2517 * t2565) - (t2518 * t2567))
+  let t2579 := (t2568 / t2569)
+  let t2580 := (t2567 / t2569)
+  let t2581 := (t2565 / t2569)
+  let t2584 := ((t2516 * t2580) - (t2517 * t2579))
+  let t2587 := ((t2518 * t2579) - (t2516 * t2581))
+  let t2590 := ((t2517 * t2581) - (t2518 * t2580))
+  let t2591 := (t2538 - t2535)
+  let t2592 := (t2539 - t2536)
+  let t2593 := (t2535 - t2566)
+  let t2594 := (V3.length tmin tmax sqrt ⟨t2593, t2592, t2591⟩)
+  let t2597 := ((t2516 * t2592) - (t2517 * t2593))
+  let t2600 := ((t2518 * t2593) - (t2516 * t2591))
+  let t2603 := ((t2517 * t2591) - (t2518 * t2592))
+  let t2604 := (t2593 / t2594)
+  let t2605 := (t2592 / t2594)
+  let t2606 := (t2591 / t2594)
+  let t2609 := ((t2516 * t2605) - (t2517 * t2604))
+  let t2612 := ((t2518 * t2604) - (t2516 * t2606))
+  let t2615 := ((t2517 * t2606) - (t2518 * t2605))
+  let t2616 := (t2530 / t2531)
+  let t2617 := (t2527 / t2531)
+  let t2618 := (t2524 / t2531)
+  let t2619 := (V3.length tmin tmax sqrt ⟨t2616, t2617, t2618⟩)
+  if t2515 = (0 : α) then
     .error Exc.domainError
   else
-    if t2492 = (0 : α) then
-      if t2494 < t2493 then
-        if t2495 < t2494 then
-          if t2504 = (0 : α) then
-            .ok (⟨t2477, t2478, t2479, (0 : α), t2503, t2501, t2498, (0 : α), t2513, t2510, t2507, (0 : α), pi.x, pi.y, pi.z, (1 : α)⟩)
+    if t2531 = (0 : α) then
+      if t2533 < t2532 then
+        if t2534 < t2533 then
+          if t2543 = (0 : α) then
+            .ok (⟨t2516, t2517, t2518, (0 : α), t2542, t2540, t2537, (0 : α), t2552, t2549, t2546, (0 : α), pi.x, pi.y, pi.z, (1 : α)⟩)
           else
-            .ok (⟨t2477, t2478, t2479, (0 : α), t2514, t2515, t2516, (0 : α), t2525, t2522, t2519, (0 : α), pi.x, pi.y, pi.z, (1 : α)⟩)
+            .ok (⟨t2516, t2517, t2518, (0 : α), t2553, t2554, t2555, (0 : α), t2564, t2561, t2558, (0 : α), pi.x, pi.y, pi.z, (1 : α)⟩)
         else
-          if t2530 = (0 : α) then
-            .ok (⟨t2477, t2478, t2479, (0 : α), t2529, t2528, t2526, (0 : α), t2539, t2536, t2533, (0 : α), pi.x, pi.y, pi.z, (1 : α)⟩)
+          if t2569 = (0 : α) then
+            .ok (⟨t2516, t2517, t2518, (0 : α), t2568, t2567, t2565, (0 : α), t2578, t2575, t2572, (0 : α), pi.x, pi.y, pi.z, (1 : α)⟩)
           else
-            .ok (⟨t2477, t2478, t2479, (0 : α), t2540, t2541, t2542, (0 : α), t2551, t2548, t2545, (0 : α), pi.x, pi.y, pi.z, (1 : α)⟩)
+            .ok (⟨t2516, t2517, t2518, (0 : α), t2579, t2580, t2581, (0 : α), t2590, t2587, t2584, (0 : α), pi.x, pi.y, pi.z, (1 : α)⟩)
       else
-        if t2495 < t2493 then
-          if t2504 = (0 : α) then
-            .ok (⟨t2477, t2478, t2479, (0 : α), t2503, t2501, t2498, (0 : α), t2513, t2510, t2507, (0 : α), pi.x, pi.y, pi.z, (1 : α)⟩)
+        if t2534 < t2532 then
+          if t2543 = (0 : α) then
+            .ok (⟨t2516, t2517, t2518, (0 : α), t2542, t2540, t2537, (0 : α), t2552, t2549, t2546, (0 : α), pi.x, pi.y, pi.z, (1 : α)⟩)
           else
-            .ok (⟨t2477, t2478, t2479, (0 : α), t2514, t2515, t2516, (0 : α), t2525, t2522, t2519, (0 : α), pi.x, pi.y, pi.z, (1 : α)⟩)
+            .ok (⟨t2516, t2517, t2518, (0 : α), t2553, t2554, t2555, (0 : α), t2564, t2561, t2558, (0 : α), pi.x, pi.y, pi.z, (1 : α)⟩)
         else
-          if t2555 = (0 : α) then
-            .ok (⟨t2477, t2478, t2479, (0 : α), t2554, t2553, t2552, (0 : α), t2564, t2561, t2558, (0 : α), pi.x, pi.y, pi.z, (1 : α)⟩)
+          if t2594 = (0 : α) then
+            .ok (⟨t2516, t2517, t2518, (0 : α), t2593, t2592, t2591, (0 : α), t2603, t2600, t2597, (0 : α), pi.x, pi.y, pi.z, (1 : α)⟩)
           else
-            .ok (⟨t2477, t2478, t2479, (0 : α), t2565, t2566, t2567, (0 : α), t2576, t2573, t2570, (0 : α), pi.x, pi.y, pi.z, (1 : α)⟩)
+            .ok (⟨t2516, t2517, t2518, (0 : α), t2604, t2605, t2606, (0 : α), t2615, t2612, t2609, (0 : α), pi.x, pi.y, pi.z, (1 : α)⟩)
     else
-      if t2580 = (0 : α) then
-        if t2494 < t2493 then
-          if t2495 < t2494 then
-            if t2504 = (0 : α) then
-              .ok (⟨t2477, t2478, t2479, (0 : α), t2503, t2501, t2498, (0 : α), t2513, t2510, t2507, (0 : α), pi.x, pi.y, pi.z, (1 : α)⟩)
+      if t2619 = (0 : α) then
+        if t2533 < t2532 then
+          if t2534 < t2533 then
+            if t2543 = (0 : α) then
+              .ok (⟨t2516, t2517, t2518, (0 : α), t2542, t2540, t2537, (0 : α), t2552, t2549, t2546, (0 : α), pi.x, pi.y, pi.z, (1 : α)⟩)
             else
-              .ok (⟨t2477, t2478, t2479, (0 : α), t2514, t2515, t2516, (0 : α), t2525, t2522, t2519, (0 : α), pi.x, pi.y, pi.z, (1 : α)⟩)
+              .ok (⟨t2516, t2517, t2518, (0 : α), t2553, t2554, t2555, (0 : α), t2564, t2561, t2558, (0 : α), pi.x, pi.y, pi.z, (1 : α)⟩)
           else
-            if t2530 = (0 : α) then
-              .ok (⟨t2477, t2478, t2479, (0 : α), t2529, t2528, t2526, (0 : α), t2539, t2536, t2533, (0 : α), pi.x, pi.y, pi.z, (1 : α)⟩)
+            if t2569 = (0 : α) then
+              .ok (⟨t2516, t2517, t2518, (0 : α), t2568, t2567, t2565, (0 : α), t2578, t2575, t2572, (0 : α), pi.x, pi.y, pi.z, (1 : α)⟩)
             else
-              .ok (⟨t2477, t2478, t2479, (0 : α), t2540, t2541, t2542, (0 : α), t2551, t2548, t2545, (0 : α), pi.x, pi.y, pi.z, (1 : α)⟩)
+              .ok (⟨t2516, t2517, t2518, (0 : α), t2579, t2580, t2581, (0 : α), t2590, t2587, t2584, (0 : α), pi.x, pi.y, pi.z, (1 : α)⟩)
         else
-          if t2495 < t2493 then
-            if t2504 = (0 : α) then
-              .ok (⟨t2477, t2478, t2479, (0 : α), t2503, t2501, t2498, (0 : α), t2513, t2510, t2507, (0 : α), pi.x, pi.y, pi.z, (1 : α)⟩)
+          if t2534 < t2532 then
+            if t2543 = (0 : α) then
+              .ok (⟨t2516, t2517, t2518, (0 : α), t2542, t2540, t2537, (0 : α), t2552, t2549, t2546, (0 : α), pi.x, pi.y, pi.z, (1 : α)⟩)
             else
-              .ok (⟨t2477, t2478, t2479, (0 : α), t2514, t2515, t2516, (0 : α), t2525, t2522, t2519, (0 : α), pi.x, pi.y, pi.z, (1 : α)⟩)
+              .ok (⟨t2516, t2517, t2518, (0 : α), t2553, t2554, t2555, (0 : α), t2564, t2561, t2558, (0 : α), pi.x, pi.y, pi.z, (1 : α)⟩)
           else
-            if t2555 = (0 : α) then
-              .ok (⟨t2477, t2478, t2479, (0 : α), t2554, t2553, t2552, (0 : α), t2564, t2561, t2558, (0 : α), pi.x, pi.y, pi.z, (1 : α)⟩)
+            if t2594 = (0 : α) then
+              .ok (⟨t2516, t2517, t2518, (0 : α), t2593, t2592, t2591, (0 : α), t2603, t2600, t2597, (0 : α), pi.x, pi.y, pi.z, (1 : α)⟩)
             else
-              .ok (⟨t2477, t2478, t2479, (0 : α), t2565, t2566, t2567, (0 : α), t2576, t2573, t2570, (0 : α), pi.x, pi.y, pi.z, (1 : α)⟩)
+              .ok (⟨t2516, t2517, t2518, (0 : α), t2604, t2605, t2606, (0 : α), t2615, t2612, t2609, (0 : α), pi.x, pi.y, pi.z, (1 : α)⟩)
       else
-        .ok (⟨t2477, t2478, t2479, (0 : α), t2577, t2578, t2579, (0 : α), ((t2478 * t2579) - (t2479 * t2578)), ((t2479 * t2577) - (t2477 * t2579)), ((t2477 * t2578) - (t2478 * t2577)), (0 : α), pi.x, pi.y, pi.z, (1 : α)⟩)
+        .ok (⟨t2516, t2517, t2518, (0 : α), t2616, t2617, t2618, (0 : α), ((t2517 * t2618) - (t2518 * t2617)), ((t2518 * t2616) - (t2516 * t2618)), ((t2516 * t2617) - (t2517 * t2616)), (0 : α), pi.x, pi.y, pi.z, (1 : α)⟩)
 
 /-- extracted from the C++ template at T = Sym; 1 path(s) -/
 def Frame.lastFrame {α : Type} [Add α] [Sub α] [Mul α] [OfNat α 0] [OfNat α 1] (Mi : M44 α) (pi : V3 α) (pj : V3 α) : (M44 α) :=
